@@ -325,6 +325,14 @@ def _split_flags(field):
     return base, flags
 
 
+def _crash_summary(text):
+    """the sanitizer's headline if there is one, else the tail of the description"""
+    for line in text.replace("\\n", "\n").split("\n"):
+        if "AddressSanitizer" in line or "runtime error" in line or "LeakSanitizer" in line:
+            return line.strip()[:300]
+    return text[-400:]
+
+
 def _drop_last(got):
     """text of the wrapped result without its last element (the end position, a plain integer)"""
     if not got.startswith("@["):
@@ -376,7 +384,7 @@ def _check_match(u, pat, cases, status, text, res):
     ptxt = emit(pat)
     if status != "OK":
         # CRASH / TIMEOUT / ERR: memory error, sanitizer report, or driver failure on this pattern
-        _note(res, u, "%s:%s" % (status.lower(), ptxt), "%s under %s: %s" % (status, u.variant, text[-600:]),
+        _note(res, u, "%s:%s" % (status.lower(), ptxt), "%s under %s: %s" % (status, u.variant, _crash_summary(text)),
               pat, cases[0], "a result for every case", status)
         res["n_cases"] += len(cases)
         return
@@ -495,7 +503,7 @@ def _check_api(u, ps, cases, status, text, res):
                         sig = name
                         break
                 if sig is None:
-                    sig = "api-mismatch:%s:%s" % (API_NAMES[j], ptxt)
+                    sig = "api-mismatch:%s:%s" % (API_NAMES[j], ptxt if j >= 2 else emit(pat))
                 _note(res, u, sig, "%s differs from repeated matching" % API_NAMES[j], pat, case, exp[j], got,
                       kind="api%d" % j, subst=subst)
             for fl, val in flags.items():
